@@ -125,11 +125,7 @@ def handle (toks : List String) : String :=
           | some (steps, ents2) =>
             -- records defined inside later `hset` values are unreachable until that step links them
             let store : Store := (ents ++ ents2).foldl (fun s e => s.put e) []
-            let okTypes := (ents ++ ents2).all (fun e => match w.lookupReg e.tn with
-              | some d => anonOk w 8 d.fields
-              | none => true)
             let m : String :=
-              if !okTypes then "err" else
               ";".intercalate ((run w fuel ⟨store, [], []⟩ steps).1.map (showAns w))
             let sa := SpecToGoHist.run w fuel ⟨store, []⟩ steps
             let s : String := if sa.any isNoAnswer then "-" else ";".intercalate (sa.map (showSAns w))
